@@ -238,6 +238,42 @@ def check_formula(term, rec, tag, keyname, case, forms, share=False):
                     fail('hessian-not-symmetric', form, None, h)
                 elif not _cmp_mat(bm, aggB):
                     fail('bhhh-not-sum-of-outer-products', form, aggB, bm)
+            elif form == 'agg_named_in_model':
+                # the formula is one of the formulas of a BIOGEME object whose other formula has parameters of its own (one
+                # sorting before, one after the formula's): the named derivatives are asked with the model's numbering
+                # (prepare_ids=False); every name must carry its own derivative, the foreign names zero
+                import biogeme.expressions as ex
+                from vf.engine import make_biogeme
+                other = ex.Beta('AA_other_first', 0.5, None, None, 0) * ex.Variable(G.COLUMNS[0]) \
+                    + ex.Beta('zz_other_last', -0.5, None, None, 0)
+                res = guard(form, lambda: (make_biogeme(db, {'other': other, 'formula': expr}),
+                                           expr.get_value_and_derivatives(
+                    betas=betas_arg, database=db, gradient=True, hessian=True, bhhh=True, aggregation=True,
+                    prepare_ids=False, named_results=True))[1])
+                if res is None:
+                    continue
+                mp = dict(res.mapping)
+                allnames = sorted(set(free) | {'AA_other_first', 'zz_other_last'})
+                if sorted(mp, key=lambda k: mp[k]) != allnames:
+                    fail('named-mapping-not-sorted-free-names', form, allnames, mp)
+                    continue
+                g = [float(res.gradient[nm]) for nm in free]
+                h = [[float(res.hessian[a][b]) for b in free] for a in free]
+                bm = [[float(res.bhhh[a][b]) for b in free] for a in free]
+                foreign = [float(res.gradient[nm]) for nm in ('AA_other_first', 'zz_other_last')] + \
+                    [float(res.hessian[a][b]) for a in ('AA_other_first', 'zz_other_last') for b in allnames]
+                f = float(res.function)
+                rec.case(key, (tag, label, form, round(f, 8), [round(x, 7) for x in g]), outcome='ok')
+                if not dclose(f, aggF):
+                    fail('aggregated-value-not-sum', form, aggF, f)
+                elif not _cmp_vec(g, aggG):
+                    fail('named-gradient-entry-not-the-derivative-for-that-name', form, aggG, g)
+                elif not _cmp_mat(h, aggH):
+                    fail('named-hessian-entry-not-the-derivative-for-that-name', form, aggH, h)
+                elif not _cmp_mat(bm, aggB):
+                    fail('bhhh-not-sum-of-outer-products', form, aggB, bm)
+                elif any(v != 0.0 for v in foreign):
+                    fail('derivative-for-a-parameter-the-formula-does-not-contain', form, 0.0, foreign)
             elif form in ('flags_g', 'flags_gb', 'flags_gh'):
                 hh, bb = form == 'flags_gh', form == 'flags_gb'
                 res = guard(form, lambda: expr.get_value_and_derivatives(
@@ -413,7 +449,7 @@ def _parse_and_cmp(obs, agg):
     return len(nums) == len(flat) and all(dclose(a, b) for a, b in zip(nums, flat))
 
 
-ALL_FORMS = ['disagg', 'disagg_named', 'agg', 'agg_named', 'flags_g', 'flags_gb', 'flags_gh', 'create_function', 'objective',
+ALL_FORMS = ['disagg', 'disagg_named', 'agg', 'agg_named', 'agg_named_in_model', 'flags_g', 'flags_gb', 'flags_gh', 'create_function', 'objective',
              'biogeme', 'biogeme_scaled', 'biogeme_history']
 
 
@@ -459,6 +495,7 @@ def tasks(tier, seed):
         for i in range(0, len(tri), chunk):
             t.append(dict(part='triple', lo=i, hi=min(i + chunk, len(tri)), rot=rot, tier=tier))
     t.append(dict(part='findiff'))
+    t.append(dict(part='named_api'))
     t.append(dict(part='shared_av'))
     t.append(dict(part='nodb'))
     for i in range(3):
@@ -473,7 +510,7 @@ def tasks(tier, seed):
 def forms_for(rot, tier):
     if rot == 0:
         return ALL_FORMS
-    return ['disagg', 'disagg_named', 'agg', 'agg_named'] if tier == 'quick' else ALL_FORMS
+    return ['disagg', 'disagg_named', 'agg', 'agg_named', 'agg_named_in_model'] if tier == 'quick' else ALL_FORMS
 
 
 def run_task(task):
@@ -509,6 +546,8 @@ def run_task(task):
                                       ['disagg', 'agg'])
         elif part == 'findiff':
             _findiff(rec)
+        elif part == 'named_api':
+            _named_api(rec)
         elif part == 'shared_av':
             for i, term in enumerate(shared_av_terms()):
                 check_formula(term, rec, f'shared-av#{i}', 'logit-with-a-variable-shared-by-availability-and-utility',
@@ -520,6 +559,46 @@ def run_task(task):
     except StopTask:
         rec.count('task_stopped_after_engine_error')
     return rec.result()
+
+
+def _named_api(rec):
+    """The classes that attach names to derivatives (function_output.convert_to_dict, NamedFunctionOutput,
+    NamedBiogemeFunctionOutput, NamedBiogemeDisaggregateFunctionOutput) given every name->index mapping over 3 (and partial
+    ones over 4) positions: every insertion order of the dictionary x every assignment of indices.  Entry `name` must be
+    the array entry at the index the mapping stores for that name - the dictionary's own order is irrelevant."""
+    import numpy as np
+    import itertools
+    import biogeme.function_output as fo
+    names = ['scale', 'asc', 'b_time']
+    n = 4
+    g = np.array([1.5, -2.25, 3.125, 7.0])
+    h = np.array([[(i + 1) * 10.0 + (j + 1) for j in range(n)] for i in range(n)])
+    bh = h * 0.5 + 100.0
+    for k in (3, 2):
+        for idx in itertools.permutations(range(n), k):
+            for order in itertools.permutations(range(k)):
+                mapping = {names[i]: idx[i] for i in order}
+                case = dict(part='named_api', mapping=list(mapping.items()))
+                key = ('named_api', tuple(mapping.items()))
+                try:
+                    d = fo.convert_to_dict(list(g), dict(mapping))
+                    out = fo.NamedBiogemeFunctionOutput(
+                        fo.BiogemeFunctionOutput(function=1.0, gradient=g.copy(), hessian=h.copy(), bhhh=bh.copy()), dict(mapping))
+                    dis = fo.NamedBiogemeDisaggregateFunctionOutput(
+                        fo.BiogemeDisaggregateFunctionOutput(functions=np.array([1.0, 2.0]), gradients=np.array([g, 2 * g]),
+                                                             hessians=np.array([h, 2 * h]), bhhhs=np.array([bh, 2 * bh])), dict(mapping))
+                except Exception as e:
+                    rec.case(key, ('raised', type(e).__name__), outcome='raised')
+                    rec.violation(f'C02|named-output-raised-{type(e).__name__}|named-api', f'mapping {mapping}: {str(e)[:200]}', case)
+                    continue
+                rec.case(key, (tuple(mapping.items()), tuple(sorted(d.items()))), outcome=('named', k))
+                ok = all(d[nm] == g[i] and out.gradient[nm] == g[i] and dis.gradients[1][nm] == 2 * g[i] for nm, i in mapping.items())
+                ok = ok and all(out.hessian[a][b] == h[i][j] and out.bhhh[a][b] == bh[i][j] and dis.hessians[1][a][b] == 2 * h[i][j]
+                                and dis.bhhhs[0][a][b] == bh[i][j]
+                                for a, i in mapping.items() for b, j in mapping.items())
+                if not ok:
+                    rec.violation('C02|named-entry-not-the-array-entry-at-the-index-of-that-name|named-api',
+                                  f'mapping {mapping} on gradient {list(g)}: convert_to_dict -> {d}, named gradient {out.gradient}', case)
 
 
 def _findiff(rec):
@@ -663,6 +742,8 @@ def replay(case):
             check_formula(term, rec, 'replay', f'tree-root:{term[0]}', case, ['disagg', 'agg'])
         elif part == 'findiff':
             _findiff(rec)
+        elif part == 'named_api':
+            _named_api(rec)
         elif part == 'shared_av':
             for i, term in enumerate(shared_av_terms()):
                 check_formula(term, rec, f'shared-av#{i}', 'logit-with-a-variable-shared-by-availability-and-utility',
